@@ -783,6 +783,15 @@ def h_slice(I, a, k, st, n):
     return Opaque("slice()")
 
 
+def h_unique(I, a, k, st, n):
+    """np.unique(a): the sorted DISTINCT elements - a different multiset from a whenever a has repeated entries."""
+    v = a[0] if a else None
+    nm = getattr(v, "name", None) or "the array"
+    return Mismatch(f"np.unique({nm}) keeps only the distinct elements (and sorts them): entries that occur more than once are dropped, "
+                    "so sums / means over the array run over fewer terms than the caller supplied")
+
+
+_reg("numpy.unique", h_unique)
 _reg("builtins.slice", h_slice)
 _reg("numpy.prod", h_prod)
 _reg("numpy.interp", h_interp)
